@@ -42,6 +42,7 @@ type trResult struct {
 	InLen      int    `json:"in_len"`
 	OutLen     int    `json:"out_len"`
 	SkippedInv string `json:"skipped_inv,omitempty"`
+	SrcKept    bool   `json:"src_kept"`
 }
 
 var dtOnce sync.Once
@@ -237,6 +238,7 @@ func runTrCase(c *trCase) (res trResult) {
 		return
 	}
 	res.OutLen = int(outLen)
+	res.SrcKept = bytes.Equal(src, y) // not required by the property on success; reported as an observation
 	if int(outLen) > req {
 		res.Kind, res.Dir, res.Detail = "exceeds-maxencodedlen", "forward", fmt.Sprintf("output %d bytes > MaxEncodedLen(%d) = %d", outLen, len(y), req)
 		return
@@ -510,6 +512,9 @@ func c13(run *core.Run, replay string) {
 		}
 		var tr trResult
 		json.Unmarshal(r.Out, &tr)
+		if tr.Applied && tr.Kind == "" && !tr.SrcKept {
+			run.Seen("forward_modified_its_input_on_success", c.T)
+		}
 		if tr.Applied {
 			run.Count("applied_"+c.T, 1)
 			if tr.InLen >= 16 && tr.SkippedInv == "" {
